@@ -88,6 +88,8 @@ describe = S.describe
 
 def judge(case, impl, model):
     """the main call and every call of its history are judged alike"""
+    if case.get("oracle") == "map":
+        return S.judge_map(case, impl)
     cd = case["cls"]
     pre = case.get("pre") or []
     hist = ""
